@@ -54,7 +54,9 @@ def toOpt {α : Type u} : Except Err α → Option α
   | .ok a => some a
   | .error _ => none
 
+/-- `toOpt` of a returned value -/
 @[simp] theorem toOpt_ok {α : Type u} (a : α) : toOpt (Except.ok a : Except Err α) = some a := rfl
+/-- `toOpt` of a raised exception -/
 @[simp] theorem toOpt_error {α : Type u} (e : Err) : toOpt (Except.error e : Except Err α) = none := rfl
 
 /-- what `Layer.forward` returns for the model's `(outputs, res)`: the pair with `capture_intermediate`, `outputs` alone without -/
@@ -251,8 +253,11 @@ theorem layer_forward_single_res (W : Dict τ → Option (Dict τ)) (L L' : Laye
 /-- what `Serial.forward` returns for the model's `(neuron output, connection output)` -/
 def serialRet (cap : Bool) (o y : τ) : SerialRet τ := if cap then .pair o y else .single o
 
+/-- projections of `SerialS.cfg` -/
 @[simp] theorem SerialS.cfg_cn (s : SerialS τ) : s.cfg.cn = s.cn := rfl
+/-- projections of `SerialS.cfg` -/
 @[simp] theorem SerialS.cfg_nn (s : SerialS τ) : s.cfg.nn = s.nn := rfl
+/-- projections of `SerialS.cfg` -/
 @[simp] theorem SerialS.cfg_trans (s : SerialS τ) : s.cfg.trans = s.trans := rfl
 
 /-- **`gen_serial_forward`**: the regenerated `Serial.forward` (which calls the regenerated `Layer.forward`, which dispatches to the
